@@ -81,7 +81,7 @@ theorem section_core (objs : List InSec) (sty : Style) (wild : Bool) (ks ke fill
       (∀ a, addr = some a → ∃ st₁ : St, st₁.dot = st.dot ∧ start = (operand st₁ a).getD st.dot) ∧
       (addr = none → start = Ld.alignUp st.dot al) ∧
       start ≤ end_ ∧ Outside st' ∧
-      st'.placed = st.placed ++ new ∧ chainOk name start new end_ ∧
+      st'.placed = st.placed ++ new ∧ chainOk name start new end_ ∧ alignedAll sub new ∧
       ((st'.dot = end_ ∧ ∃ lmaV, st'.secs = st.secs ++ [⟨name, start, end_ - start, lmaV, nl, al⟩]) ∨
        (end_ = start ∧ st'.dot = st.dot ∧ st'.secs = st.secs)) := by
   have e1 : execK objs st (ks ++ [Line.outHdr name nl addr lma sub, Line.blockOpen] ++ fill ++ body ++ [Line.blockClose] ++ ke) k
@@ -116,7 +116,9 @@ theorem section_core (objs : List InSec) (sty : Style) (wild : Bool) (ks ke fill
   -- the statements between the braces
   have a3 := run_inner objs sty wild c body hbody st2 in2 ([Line.blockClose] ++ (ke ++ k))
   generalize h3 : execK objs st2 body _ = st3 at *
-  obtain ⟨new, hnew, hchain⟩ := a3.placed
+  obtain ⟨new, hnew, hchain, halg⟩ := a3.placed
+  have hcs : c.subalign = sub := by rw [← hc]
+  rw [hcs] at halg
   have hd2 : st2.dot = start := by rw [e2]
   have hp2 : st2.placed = st.placed := by rw [e2]; exact p1
   have hs2 : st2.secs = st.secs := by rw [e2]; exact s1
@@ -144,7 +146,7 @@ theorem section_core (objs : List InSec) (sty : Style) (wild : Bool) (ks ke fill
     have hsz : st3.dot = start := by
       simp only [Bool.and_eq_true, decide_eq_true_eq] at hrm
       rw [← hca]; exact hrm.2
-    refine ⟨start, start, al, new, _, rfl, hal1, hstartA, hstartN, Nat.le_refl _, ?_, ?_, ?_, Or.inr ⟨rfl, ?_, ?_⟩⟩
+    refine ⟨start, start, al, new, _, rfl, hal1, hstartA, hstartN, Nat.le_refl _, ?_, ?_, ?_, halg, Or.inr ⟨rfl, ?_, ?_⟩⟩
     · rw [e1, e4]; exact o5
     · rw [e1, e4, p5]; simp only []; rw [hnew, hp2]
     · rw [hsz] at hchain; exact hchain
@@ -156,7 +158,7 @@ theorem section_core (objs : List InSec) (sty : Style) (wild : Bool) (ks ke fill
       rw [if_neg hrm]
     obtain ⟨o5, d5, s5, p5⟩ := run_outer objs _ hke { st3 with cur := none, secs := st3.secs ++ [closedSec c st3.dot] }
       ⟨rfl, a3.inside.nd⟩ k
-    refine ⟨start, st3.dot, al, new, _, rfl, hal1, hstartA, hstartN, ?_, ?_, ?_, hchain, Or.inl ⟨?_, c.lma, ?_⟩⟩
+    refine ⟨start, st3.dot, al, new, _, rfl, hal1, hstartA, hstartN, ?_, ?_, ?_, hchain, halg, Or.inl ⟨?_, c.lma, ?_⟩⟩
     · have := a3.mono; omega
     · rw [e1, e4]; exact o5
     · rw [e1, e4, p5]; simp only []; rw [hnew, hp2]
@@ -191,7 +193,7 @@ theorem section_image (objs : List InSec) (cx : Ctx) (seg : Segment) (secs : Lis
       (∀ a, addr = some a → ∃ st₁ : St, st₁.dot = st.dot ∧ start = (operand st₁ a).getD st.dot) ∧
       (addr = none → start = Ld.alignUp st.dot al) ∧
       start ≤ end_ ∧ Outside st' ∧
-      st'.placed = st.placed ++ new ∧ chainOk name start new end_ ∧
+      st'.placed = st.placed ++ new ∧ chainOk name start new end_ ∧ alignedAll seg.subalign new ∧
       ((st'.dot = end_ ∧ ∃ lmaV, st'.secs = st.secs ++ [⟨name, start, end_ - start, lmaV, noload, al⟩]) ∨
        (end_ = start ∧ st'.dot = st.dot ∧ st'.secs = st.secs)) := by
   obtain ⟨fill, body, hls, hfill, hbody⟩ := writeSegment_shape' cx seg secs noload ls h
@@ -201,20 +203,20 @@ theorem section_image (objs : List InSec) (cx : Ctx) (seg : Segment) (secs : Lis
     rcases hfill with rfl | ⟨v, rfl⟩ <;> simp [execK, step]
   cases noload with
   | false =>
-    obtain ⟨start, end_, al, new, st', h1, h2, h3, h4, h5, h6, h7, h8, h9⟩ :=
+    obtain ⟨start, end_, al, new, st', h1, h2, h3, h4, h5, h6, h7, h8, h9, h10⟩ :=
       section_core objs cx.d.settings.style seg.wildcardSections (kindStart cx seg false) (kindEnd cx seg false)
         fill body
         (c!"." ++ seg.name) false (segAddr cx seg) (some (cx.d.settings.style.segRomStart seg.name)) seg.subalign
         (kindStart_outer cx seg false) (kindEnd_outer cx seg false) hfillno hbody st ho k
-    refine ⟨start, end_, al, new, st', _, _, ?_, rfl, rfl, h2, h3, h4, h5, h6, h7, h8, h9⟩
+    refine ⟨start, end_, al, new, st', _, _, ?_, rfl, rfl, h2, h3, h4, h5, h6, h7, h8, h9, h10⟩
     rw [h1]; simp [segmentStart]
   | true =>
-    obtain ⟨start, end_, al, new, st', h1, h2, h3, h4, h5, h6, h7, h8, h9⟩ :=
+    obtain ⟨start, end_, al, new, st', h1, h2, h3, h4, h5, h6, h7, h8, h9, h10⟩ :=
       section_core objs cx.d.settings.style seg.wildcardSections (kindStart cx seg true) (kindEnd cx seg true)
         fill body
         (c!"." ++ seg.name ++ c!".noload") true none none seg.subalign
         (kindStart_outer cx seg true) (kindEnd_outer cx seg true) hfillno hbody st ho k
-    refine ⟨start, end_, al, new, st', _, _, ?_, rfl, rfl, h2, h3, h4, h5, h6, h7, h8, h9⟩
+    refine ⟨start, end_, al, new, st', _, _, ?_, rfl, rfl, h2, h3, h4, h5, h6, h7, h8, h9, h10⟩
     rw [h1]; simp [segmentStart]
 
 end Ld
